@@ -65,6 +65,9 @@ pub struct Ctx {
     pub task_wakers: Vec<(usize, Waker)>,
     pub subs: Vec<(usize, Waker)>,
     pub mute: bool,
+    /// per child: a waker equivalent to the one of its latest poll has been invoked since that poll began
+    /// (the child has done its part; a benign environment does not wake for it again)
+    pub owed: Vec<bool>,
     /// statistics for the evidence file
     pub n_child_polls: usize,
 }
@@ -285,14 +288,23 @@ pub fn fire(child: usize, age: usize) {
 
 fn fire_on(child: usize, age: usize, threaded: bool) {
     let found = CTX.with(|c| {
-        let c = c.borrow();
-        c.handed.get(child).and_then(|h| {
+        let mut c = c.borrow_mut();
+        let found = c.handed.get(child).and_then(|h| {
             if age < h.len() {
                 Some(h[h.len() - 1 - age].clone())
             } else {
                 None
             }
-        })
+        });
+        if let Some((w, _)) = &found {
+            if c.handed[child].last().map(|l| l.0.will_wake(w)).unwrap_or(false) {
+                if c.owed.len() <= child {
+                    c.owed.resize(child + 1, false);
+                }
+                c.owed[child] = true;
+            }
+        }
+        found
     });
     match found {
         None => log(format!("fi {child} {age} -")),
@@ -318,6 +330,10 @@ pub fn child_begin(child: usize, cx: &mut Context<'_>) {
         let cls = classify(&mut c, cx.waker(), slot);
         let w = cx.waker().clone();
         c.handed[child].push((w, cls.clone()));
+        if c.owed.len() <= child {
+            c.owed.resize(child + 1, false);
+        }
+        c.owed[child] = false;
         c.n_child_polls += 1;
         (slot, cls)
     });
